@@ -19,3 +19,25 @@ func (fc *FnCtx) rangeIndexCell(ord int) *ssa.Alloc {
 	}
 	return nil
 }
+
+// rangedValue finds the slice being ranged over by range-over-slice loop ord: the loop head
+// compares the incremented index with len(X), X evaluated once before the loop.
+func (fc *FnCtx) rangedValue(ord int) ssa.Value {
+	for _, li := range fc.loopList {
+		if li.ordinal != ord {
+			continue
+		}
+		for _, in := range li.head.Instrs {
+			if iff, ok := in.(*ssa.If); ok {
+				if b, ok := iff.Cond.(*ssa.BinOp); ok {
+					if c, ok := b.Y.(*ssa.Call); ok {
+						if bi, ok := c.Call.Value.(*ssa.Builtin); ok && bi.Name() == "len" {
+							return c.Call.Args[0]
+						}
+					}
+				}
+			}
+		}
+	}
+	return nil
+}
